@@ -241,13 +241,46 @@ async fn error_hook(
 		}
 
 		error!(%err, "runtime error");
+		#[cfg(watchexec_verif)]
+		let verif_delay = verif::error_delay(&err);
 		let payload = ErrorHook::new(err);
 		let crit = payload.critical.clone();
 		handler.call(payload);
 		ErrorHook::handle_crit(crit)?;
+		#[cfg(watchexec_verif)]
+		if !verif_delay.is_zero() {
+			tokio::time::sleep(verif_delay).await;
+		}
 	}
 
 	Ok(())
+}
+
+/// A slow error handler, for external conformance checking.
+///
+/// Only compiled with `--cfg watchexec_verif`. When a function is installed for the current thread,
+/// the error hook stays busy for the duration it returns after having called the error handler with
+/// that error - as a handler that takes that long would keep it - while every other task goes on.
+#[cfg(watchexec_verif)]
+#[allow(missing_docs, clippy::missing_panics_doc)]
+pub mod verif {
+	use std::{cell::RefCell, sync::Arc, time::Duration};
+
+	use crate::error::RuntimeError;
+
+	pub type ErrorDelay = Arc<dyn Fn(&RuntimeError) -> Duration + Send + Sync>;
+
+	thread_local! {
+		static ERROR_DELAY: RefCell<Option<ErrorDelay>> = const { RefCell::new(None) };
+	}
+
+	pub fn set_error_delay(f: Option<ErrorDelay>) {
+		ERROR_DELAY.with(|d| *d.borrow_mut() = f);
+	}
+
+	pub(super) fn error_delay(err: &RuntimeError) -> Duration {
+		ERROR_DELAY.with(|d| d.borrow().as_ref().map_or(Duration::ZERO, |f| f(err)))
+	}
 }
 
 /// The environment given to the error handler.
